@@ -226,6 +226,27 @@ func TestC18Real(t *testing.T) {
 	})
 }
 
+// TestC18Types / TestC18Content: the clientType argument of Subscribe and the
+// content of the scripted notifications as generated dimensions (multi.go).
+func TestC18Types(t *testing.T)   { runXPart(t, "types") }
+func TestC18Content(t *testing.T) { runXPart(t, "content") }
+
+func runXPart(t *testing.T, part string) {
+	if !vstat.Enabled(propertyID) {
+		t.Skip()
+	}
+	rec := vstat.New(propertyID, part)
+	rec.RunRapid(t, func(rt *rapid.T) {
+		sc := genX(rt, part)
+		rec.Current(sc)
+		st, err := runXBubble(t, sc, part)
+		rec.Case(sc, st.nontrivial(), st.labelList()...)
+		if err != nil {
+			rt.Fatalf("%s", rec.Fail(sc, classOf(err), "%v", err))
+		}
+	})
+}
+
 func mustJSON(v any) string {
 	b, _ := json.Marshal(v)
 	return string(b)
@@ -296,6 +317,15 @@ func replayOne(t *testing.T, rf *vstat.ReplayFile) string {
 			return ""
 		}
 		return "inconclusive: completion not observed in three runs"
+	case "types", "content":
+		var sc XScenario
+		if err := json.Unmarshal(rf.Scenario, &sc); err != nil {
+			return "bad scenario: " + err.Error()
+		}
+		if _, err := runXBubble(t, &sc, rf.Part); err != nil {
+			return err.Error()
+		}
+		return ""
 	case "lifetime":
 		var sc LScenario
 		if err := json.Unmarshal(rf.Scenario, &sc); err != nil {
